@@ -50,6 +50,55 @@ fn ctx_big() -> Value {
         a => context!{ x => 1 },
         lm => vec![context!{ k => 1, v => "p" }, context!{ k => 2, v => "q" }, context!{ v => "r" }],
         f1 => 2.5, nl => "a\nb c", neg => -3, fmt => "%s-%s", html => "<a b>", sn => "42", sf => "4.5",
+        ..zoo_values()
+    }
+}
+
+// ---- a value zoo for the oracle-only streams: custom objects of each repr, bytes, wide / special numbers
+#[derive(Debug)]
+struct PlainObj;
+impl minijinja::value::Object for PlainObj {
+    fn repr(self: &std::sync::Arc<Self>) -> minijinja::value::ObjectRepr {
+        minijinja::value::ObjectRepr::Plain
+    }
+}
+#[derive(Debug)]
+struct MapObj;
+impl minijinja::value::Object for MapObj {
+    fn get_value(self: &std::sync::Arc<Self>, key: &Value) -> Option<Value> {
+        match key.as_str()? {
+            "k" => Some(Value::from(1)),
+            "un" => Some(Value::UNDEFINED),
+            _ => None,
+        }
+    }
+    fn enumerate(self: &std::sync::Arc<Self>) -> minijinja::value::Enumerator {
+        minijinja::value::Enumerator::Str(&["k", "un"])
+    }
+}
+#[derive(Debug)]
+struct SeqObj;
+impl minijinja::value::Object for SeqObj {
+    fn repr(self: &std::sync::Arc<Self>) -> minijinja::value::ObjectRepr {
+        minijinja::value::ObjectRepr::Seq
+    }
+    fn get_value(self: &std::sync::Arc<Self>, key: &Value) -> Option<Value> {
+        match key.as_usize()? {
+            0 => Some(Value::from("x")),
+            1 => Some(Value::UNDEFINED),
+            _ => None,
+        }
+    }
+    fn enumerate(self: &std::sync::Arc<Self>) -> minijinja::value::Enumerator {
+        minijinja::value::Enumerator::Seq(2)
+    }
+}
+
+fn zoo_values() -> Value {
+    context! {
+        by => Value::from_bytes(vec![97, 0, 255]), opl => Value::from_object(PlainObj), om => Value::from_object(MapObj),
+        os => Value::from_object(SeqObj), oit => Value::make_iterable(|| vec![Value::from(1), Value::UNDEFINED].into_iter()),
+        big => Value::from(i128::MAX), ubig => Value::from(u128::MAX), nan => f64::NAN, inf => f64::INFINITY,
     }
 }
 
@@ -66,6 +115,7 @@ fn ctx_safe() -> Value {
         a => context!{ x => 1 },
         lm => vec![context!{ k => 1, v => safe("p") }, context!{ k => 2, v => "q" }, context!{ v => "r" }],
         f1 => 2.5, nl => safe("a\nb c"), neg => -3, fmt => safe("%s-%s"), html => "<a b>", sn => safe("42"), sf => "4.5",
+        ..zoo_values()
     }
 }
 
@@ -95,7 +145,7 @@ fn fmt_kind(stream: &str) -> usize {
 }
 
 /// templates the generated programs include by name (no blocks, no nested includes)
-const INCLUDABLE: [&str; 2] = ["inc", "incdef"];
+const INCLUDABLE: [&str; 5] = ["inc", "incdef", "base", "base2", "base3"];
 
 /// user filters, one per string-like argument type of value/argtypes.rs
 fn add_arg_filters(e: &mut Environment<'static>) {
@@ -138,6 +188,7 @@ fn add_arg_filters(e: &mut Environment<'static>) {
     e.add_template("mac", "{% macro f(a, b=u) %}<{{ a }}|{{ b }}>{% endmacro %}{% macro g(a) %}<{{ a is defined }}>{% endmacro %}").unwrap();
     e.add_template("base", "B{% block blk %}[{{ u }}]{% endblock %}{% block other %}o{% endblock %}E").unwrap();
     e.add_template("base2", "B{% block blk %}[{{ u|default(2) }}]{% endblock %}E").unwrap();
+    e.add_template("base3", "{% extends 'base2' %}{% block blk %}<{{ super() }}|{{ w if b0 }}>{% endblock %}").unwrap();
 }
 
 fn mk_envs() -> Envs {
@@ -290,7 +341,7 @@ fn enc_instr(strict: &Environment, ins: &Instruction, out: &mut String) {
         I::BuildKwargs(n) => write!(out, "BuildKwargs {}", n).unwrap(),
         I::MergeKwargs(n) => write!(out, "MergeKwargs {}", n).unwrap(),
         I::UnpackList(n) => write!(out, "UnpackList {}", n).unwrap(),
-        I::CallFunction(n, a) if argc(a) >= 0 && *n != "super" => write!(out, "CallFunction {} {}", hx(n), argc(a)).unwrap(),
+        I::CallFunction(n, a) if argc(a) >= 0 => write!(out, "CallFunction {} {}", hx(n), argc(a)).unwrap(),
         I::CallMethod(n, a) if argc(a) >= 0 => write!(out, "CallMethod {} {}", hx(n), argc(a)).unwrap(),
         I::CallObject(a) if argc(a) >= 0 => write!(out, "CallObject {}", argc(a)).unwrap(),
         I::IsUndefined => out.push_str("IsUndefined"),
@@ -300,6 +351,8 @@ fn enc_instr(strict: &Environment, ins: &Instruction, out: &mut String) {
         I::Return => out.push_str("Return"),
         I::Include(ignore) => write!(out, "Include {}", *ignore as u8).unwrap(),
         I::CallBlock(n) => write!(out, "CallBlock {}", hx(n)).unwrap(),
+        I::LoadBlocks => out.push_str("LoadBlocks"),
+        I::FastSuper => out.push_str("FastSuper"),
         I::Add => out.push_str("Add"),
         I::Sub => out.push_str("Sub"),
         I::Mul => out.push_str("Mul"),
@@ -372,7 +425,7 @@ fn enc_prog(envs: &Envs, src: &str, ctx: &Value, fmt_kind: usize) -> String {
             let mut includes = false;
             while let Some(ins) = instrs.get(n) {
                 body.push(' ');
-                includes |= matches!(ins, Instruction::Include(_));
+                includes |= matches!(ins, Instruction::Include(_) | Instruction::LoadBlocks);
                 enc_instr(strict, ins, &mut body);
                 n += 1;
             }
@@ -384,21 +437,20 @@ fn enc_prog(envs: &Envs, src: &str, ctx: &Value, fmt_kind: usize) -> String {
         for (name, instrs) in compiled.blocks.iter() {
             let (body, n, inner) = enc_code(instrs);
             includes |= inner;
-            codes.push((hx(&format!("@{}", name)), body, n));
+            codes.push((hx(&format!("@-@{}", name)), body, n));
         }
         if includes {
             // the templates a generated program can include by name
             for name in INCLUDABLE {
                 let t = strict.get_template(name).ok()?;
                 let c = get_compiled_template(&t);
-                if !c.blocks.is_empty() {
-                    return None;
-                }
-                let (body, n, inner) = enc_code(&c.instructions);
-                if inner {
-                    return None;
-                }
+                let (body, n, _) = enc_code(&c.instructions);
                 codes.push((hx(name), body, n));
+                // the blocks of a template that can be extended: `@<template>@<block>`
+                for (bname, instrs) in c.blocks.iter() {
+                    let (body, n, _) = enc_code(instrs);
+                    codes.push((hx(&format!("@{}@{}", name, bname)), body, n));
+                }
             }
         }
         let mut out = String::from("C @");
@@ -828,6 +880,16 @@ const STMTS: &[&str] = &[
     "{{ [1, 2] + u }}", "{{ u + u }}", "{{ u ** 2 }}", "{{ u // 2 }}", "{{ 7 % u }}", "{{ u / 1 }}", "{{ -u }}", "{{ +u }}", "{{ u * 'a' }}", "{{ (u, 1) }}", "{{ (u,) }}", "{{ [u] }}", "{{ {'k': u} }}", "{{ {u: 1} }}", "{{ [u, [u]]|string }}", "{{ {'a': u}|tojson }}", "{{ [u]|tojson }}", "{{ u|tojson }}", "{{ {'a': u}|urlencode }}", "{{ {'a': u}|dictsort }}", "{{ [u, 1]|sort }}", "{{ [u, 1]|unique|list }}", "{{ [u, 1]|min }}", "{{ [u, 1]|join('-') }}", "{{ [u, u]|sum }}", "{{ [u]|first }}", "{{ [u]|last.x }}", "{{ ([u]|first).x }}", "{{ [u][0].x }}", "{{ {'a': u}.a.x }}", "{{ {'a': u}['a']['x'] }}",
 ];
 
+/// one-shot iterators (consumed by the first use) with undefined items / next to undefined operands
+const ZOO: &[&str] = &[
+    "[{{ os1 }}]", "[{% for x in os1 %}{{ x }}{% endfor %}]", "[{% for x in os1 %}{{ x|default('d') }}{% endfor %}]", "[{{ os1|list }}]",
+    "[{{ os1|join(u) }}]", "[{{ os1|join(s3) }}]", "[{{ os1|map('upper')|list }}]", "[{{ os1|map('default', 1)|list }}]", "[{{ os1|select|list }}]",
+    "[{{ os1|first }}]", "[{{ os1|length }}]", "[{{ u in os1 }}]", "[{{ 1 in os1 }}{{ 1 in os1 }}]", "[{{ os1[0] }}]", "[{{ os1[1:] }}]", "[{{ os1[u] }}]",
+    "[{{ os1|sum }}]", "[{{ os1|sort }}]", "[{{ os1|unique|list }}]", "[{{ os1|batch(2)|list }}]", "[{{ os1 is iterable }}{{ os1 is defined }}]",
+    "[{{ [u, os1]|first }}]", "[{{ os0 }}{{ os0|default('d', true) }}]", "[{% if os0 %}y{% endif %}{% if os1 %}y{% endif %}]", "[{{ os1|min }}{{ os0|max }}]",
+    "[{{ l1|zip(os1)|list }}]", "[{{ os1|chain(u)|list }}]", "[{{ os1|reverse|list }}]", "[{{ os1 ~ u }}]", "[{{ os1 == u }}]", "[{{ os1|tojson }}]",
+];
+
 /// operands of the `api` stream
 const API_OPERANDS: &[&str] = &["u", "(1 if b0)", "none", "a.b", "[u]", "[s1, u]", "[html|safe, u]", "s1", "i1", "m1", "{'k': u}"];
 
@@ -1029,7 +1091,7 @@ fn gen_calls(tier: &str, f: &mut dyn FnMut(String, (String, String))) {
     }
 }
 
-const POOL: &[&str] = &["u", "(1 if b0)", "none", "i1", "s1", "z", "l1", "m1", "b1", "[u]", "f1", "[s1, u]"];
+const POOL: &[&str] = &["u", "(1 if b0)", "none", "i1", "s1", "z", "l1", "m1", "b1", "[u]", "f1", "[s1, u]", "by", "opl", "om", "os", "oit", "big", "nan"];
 
 fn all_names() -> Vec<(&'static str, &'static str)> {
     let mut v: Vec<(&str, &str)> = vec![];
@@ -1054,7 +1116,7 @@ fn gen_sweep(tier: &str, f: &mut dyn FnMut(String, (String, String))) {
             for depth in 0..max_arity {
                 let mut next = vec![];
                 // third arguments only from the small pool
-                let pool: &[&str] = if depth >= 2 { &POOL[..5] } else { POOL };
+                let pool: &[&str] = if depth >= 2 { &POOL[..5] } else if depth == 1 && tier != "thorough" { &POOL[..12] } else { POOL };
                 if depth >= 2 {
                     frontier.retain(|a| a.iter().all(|x| POOL[..5].contains(x)));
                 }
@@ -1402,6 +1464,26 @@ impl Gen {
         self.macros.clear();
         let d = 1 + self.rng.below(3) as u32;
         let mut out = self.body(d, 4);
+        if self.rich && self.rng.chance(1, 6) {
+            // a child template: root statements (their output is discarded), overridden blocks, super()
+            let parent = *self.rng.pick(&["base", "base2", "base3", "base", "nope"]);
+            let mut t = format!("{{% extends '{}' %}}", parent);
+            if self.rng.chance(1, 2) {
+                t += &self.stmt(1);
+            }
+            for bname in ["blk", "other", "mine"] {
+                if self.rng.chance(1, 2) {
+                    let sup = match self.rng.below(4) {
+                        0 => "{{ super() }}",
+                        1 => "{{ super()|upper }}",
+                        2 => "{% if u %}{{ super() }}{% endif %}",
+                        _ => "",
+                    };
+                    t += &format!("{{% block {} %}}{}{}{{% endblock %}}", bname, self.body(1, 2), sup);
+                }
+            }
+            return t;
+        }
         if self.rich {
             // top-level blocks (rendered in place and again through `self.name()`) and includes
             let nb = self.rng.below(3);
@@ -1486,6 +1568,9 @@ fn main() {
                 id += 1;
             }
             for (label, (src, sig)) in &sweep {
+                if tier != "thorough" && label.ends_with("sweep2") {
+                    continue;
+                }
                 emit_sig(&mut w, &envs, "sweeph", id, label, src, &safe_ctx, sig);
                 id += 1;
             }
@@ -1497,6 +1582,16 @@ fn main() {
             }
             for src in STMTS {
                 emit_sig(&mut w, &envs, "stmth", id, "stmt", src, &safe_ctx, "-");
+                id += 1;
+            }
+            // one-shot iterators: the context is rebuilt for every render
+            for src in ZOO {
+                let rs: Vec<String> = envs.envs.iter().map(|e| {
+                    let c = context! { os1 => Value::make_one_shot_iterator(vec![Value::from(1), Value::UNDEFINED, Value::from("x")].into_iter()),
+                                       os0 => Value::make_one_shot_iterator(Vec::<Value>::new().into_iter()), i1 => 3, s3 => safe("b"), l1 => vec![1, 2, 3] };
+                    render(e, src, &c, false)
+                }).collect();
+                writeln!(w, "zoo\t{}\tzoo\t{}\t{}\t-", id, src, rs.join("\t")).unwrap();
                 id += 1;
             }
             // the public State / Value API, plain and auto-escaped
